@@ -191,7 +191,7 @@ class BuiltinMixin:
         if isinstance(v, (bytes, str, tuple)):
             return len(v)
         if isinstance(v, SymStr):
-            return z3.Length(v.s)
+            return self.s_len(v)
         if isinstance(v, Ref):
             o = self.heap.get(v)
             if isinstance(o, ListObj):
@@ -482,10 +482,7 @@ class BuiltinMixin:
         if str_kind(rhs) != 'bytes':
             raise Unsupported('bytearray += %r' % (rhs,))
         cur = o.fields['data']
-        if isinstance(cur, bytes) and isinstance(rhs, bytes):
-            o.fields['data'] = cur + rhs
-        else:
-            o.fields['data'] = SymStr('bytes', z3.Concat(to_zstr(cur), to_zstr(rhs)))
+        o.fields['data'] = self.s_concat(cur, rhs)
 
     def bytearray_slice(self, ref, o, lo, hi, node):
         data = self.str_slice(o.fields['data'], lo, hi, node)
@@ -653,18 +650,17 @@ class BuiltinMixin:
                 if str_kind(v) != kind:
                     self.raise_builtin('TypeError', node=node)
             return sep.join(vals)
-        parts = []
+        acc = None
         for i, v in enumerate(vals):
             if str_kind(v) != kind:
                 self.raise_builtin('TypeError', node=node)
-            if i:
-                parts.append(to_zstr(sep))
-            parts.append(to_zstr(v))
-        if not parts:
+            if acc is None:
+                acc = v
+            else:
+                acc = self.s_concat(self.s_concat(acc, sep), v)
+        if acc is None:
             return b'' if kind == 'bytes' else ''
-        if len(parts) == 1:
-            return SymStr(kind, parts[0])
-        return SymStr(kind, z3.Concat(*parts))
+        return acc
 
 
 Z_STR_ = z3.StringSort()
